@@ -205,10 +205,11 @@ Section Abs.
   Proof. induction mvs as [|mv t IH]; intros s; [reflexivity|]. cbn [H.client_queue_all Cn.queue_all]. rewrite IH. reflexivity. Qed.
 
   (* ---------------------------------------------------------------- plugin.on_client_data *)
-  Lemma ocd_sim ev st s raw : hsim st s -> is_complete (F.h_request st) = true -> F.h_plugin st = true ->
-    hrel (FF.catch (F.on_client_data fc st raw)) (H.on_client_data (with_oracles ev (H.req ev) (cdata_of st raw)) s raw).
+  Lemma ocd_sim ev st s raw : H.cdata ev = cdata_of st raw ->
+    hsim st s -> is_complete (F.h_request st) = true -> F.h_plugin st = true ->
+    hrel (FF.catch (F.on_client_data fc st raw)) (H.on_client_data ev s raw).
   Proof.
-    intros [Hc Hp Ht Hg Hu Hcl] Hcomp Hpl. specialize (Ht Hcomp).
+    intros Hcd [Hc Hp Ht Hg Hu Hcl] Hcomp Hpl. specialize (Ht Hcomp).
     unfold H.on_client_data. rewrite Hp, Hpl. unfold up_rel in Hu.
     destruct (F.h_upstream st) as [up|] eqn:Hfu; destruct (H.upstream s) as [u|] eqn:Hhu; try contradiction.
     2:{ (* no upstream: nothing happens *)
@@ -234,7 +235,7 @@ Section Abs.
       unfold upg in Hg. destruct (F.h_pipeline st) as [q|]; [|discriminate].
       rewrite Hupc. cbn [negb orb]. rewrite <- Hg. reflexivity. }
     (* the pipelined-request parser decides *)
-    cbn [H.cdata with_oracles]. unfold cdata_of.
+    rewrite Hcd. unfold cdata_of.
     pose proof (LQ.ocd_keeps fc st raw) as [Nt (K1 & K2 & K3)].
     pose proof (ocd_appends fc st raw) as Ap.
     destruct (F.on_client_data fc st raw) as [[|] st'|e st'] eqn:Eo; cbn [LQ.never_true LQ.st_of LR.st_of] in *.
@@ -257,5 +258,214 @@ Section Abs.
         try (split; [reflexivity|unfold cl_rel; rewrite K1; exact Hcl]).
       rewrite (parser_exn_no_response k Hk). cbn [hrel fst snd]. split; [reflexivity|].
       unfold cl_rel. rewrite K1. exact Hcl.
+  Qed.
+
+  (* ---------------------------------------------------------------- what _parse_first_request leaves behind *)
+  Lemma orc_shape st0 st1 : F.on_request_complete fc ok st0 = F.Done false st1 ->
+    F.h_plugin st1 = F.h_plugin st0 /\ F.h_pipeline st1 = F.h_pipeline st0 /\
+    state (F.h_request st1) = state (F.h_request st0) /\ buffer (F.h_request st1) = buffer (F.h_request st0) /\
+    ((is_https_tunnel (F.h_request st1) = true /\
+      F.h_upstream st1 = Some {| F.up_closed := false; F.up_queue := [] |} /\
+      F.h_client st1 = F.h_client st0 ++ [F.TunnelEstablished]) \/
+     (is_https_tunnel (F.h_request st1) = false /\
+      (exists w, F.h_upstream st1 = Some {| F.up_closed := false; F.up_queue := [w] |}) /\
+      F.h_client st1 = F.h_client st0)).
+  Proof.
+    unfold F.on_request_complete.
+    assert (Hr : forall r, F.before_upstream_connection fc (F.h_request st0) = Ok r -> r = F.h_request st0).
+    { unfold F.before_upstream_connection. intros r.
+      destruct (F.cf_auth_code fc) as [[|c0 ct]|]; try (intros H; inversion H; reflexivity).
+      destruct (Auth.auth_ok _ _); intros H; inversion H; reflexivity. }
+    destruct (F.before_upstream_connection fc (F.h_request st0)) as [r|e] eqn:Eb; [|discriminate].
+    rewrite (Hr r eq_refl). clear Hr Eb r.
+    destruct (connect_upstream _ _ _); [|discriminate].
+    destruct (negb ok); [discriminate|].
+    destruct (is_https_tunnel (F.h_request st0)) eqn:Ht.
+    - intros H; inversion H; subst. cbn [F.h_plugin F.h_pipeline F.h_request F.h_upstream F.h_client F.queue_client F.set_upstream].
+      repeat split; try reflexivity. left. repeat split; try reflexivity. exact Ht.
+    - destruct (F.queue_request_for_upstream fc false (F.h_request st0)) as [[r' w]|e] eqn:Eq; [|discriminate].
+      intros H; inversion H; subst.
+      destruct (LQ.qrfu_post _ _ _ _ _ Eq) as [(_ & Hs & _ & _ & _ & _ & _ & _ & _ & Htn & Hb) _].
+      cbn [F.h_plugin F.h_pipeline F.h_request F.h_upstream F.h_client F.set_request F.set_upstream].
+      repeat split; try assumption. right. repeat split.
+      + rewrite Htn. exact Ht.
+      + eexists. reflexivity.
+  Qed.
+
+  (* the named packets a step added *)
+  Lemma new_cl_app st st' X : F.h_client st' = F.h_client st ++ X -> new_cl st st' = map pk X.
+  Proof. intros E. unfold new_cl. rewrite E, skipn_app, skipn_all, Nat.sub_diag. reflexivity. Qed.
+
+  Lemma cl_rel_added st st' s X pieces : cl_rel st s -> F.h_client st' = F.h_client st ++ X -> pieces = map pk X ->
+    Cn.sent (Cn.queue_all pieces (H.work s)) ++ Cn.pending (Cn.queue_all pieces (H.work s)) = concat (map pk (F.h_client st')).
+  Proof.
+    intros Hc E ->. rewrite pending_queue_all, Hc, E, map_app, concat_app. reflexivity.
+  Qed.
+
+  (* the event handed to Handler.handle_data for Forward state [st] and segment [data] *)
+  Definition ev_of (ev : H.event) (st : F.hstate) (data : bytes) : H.event :=
+    if is_complete (F.h_request st) then with_oracles ev (H.req ev) (cdata_of st data)
+    else match F.parse_first_request fc ok st data with
+         | F.Done false st1 =>
+             with_oracles ev (req_of st data)
+               (cdata_of (F.set_request st1 (F.clear_buffer (F.h_request st1))) (bufb (F.h_request st1)))
+         | _ => with_oracles ev (req_of st data) H.DNothing
+         end.
+
+  (* MAIN LINK of this file *)
+  Theorem handle_data_sim ev st s data : hsim st s ->
+    hrel (F.handle_data fc ok st data) (H.handle_data hc (ev_of ev st data) s data).
+  Proof.
+    intros Hs. pose proof Hs as [Hc Hp Ht Hg Hu Hcl].
+    unfold H.handle_data, ev_of. rewrite Hc.
+    destruct (is_complete (F.h_request st)) eqn:Hcomp; cbn [negb].
+    - (* later data *)
+      assert (Hst : state (F.h_request st) = COMPLETE) by (apply N.eqb_eq; exact Hcomp).
+      destruct (F.h_plugin st) eqn:Hpl.
+      + rewrite (FF.handle_data_later fc ok st data Hst Hpl). apply ocd_sim; try assumption. reflexivity.
+      + unfold F.handle_data. rewrite Hst, Hpl. cbn [N.eqb Pos.eqb negb COMPLETE].
+        unfold H.on_client_data. rewrite Hp. cbn [hrel fst snd]. split; [reflexivity|exact Hs].
+    - (* the first request *)
+      assert (Hst : state (F.h_request st) <> COMPLETE) by (apply N.eqb_neq; exact Hcomp).
+      rewrite (FF.handle_data_first fc ok st data Hst).
+      unfold H.parse_first_request.
+      (* the shape of Forward's _parse_first_request *)
+      unfold req_of.
+      destruct (F.parse_first_request fc ok st data) as [[|] st1|e st1] eqn:Epfr.
+      + (* rejected with a 400 *)
+        cbn [F.first_remainder FF.catch with_oracles H.req].
+        assert (Hx : exists X, F.h_client st1 = F.h_client st ++ X).
+        { unfold F.parse_first_request in Epfr.
+          destruct (parse (F.h_request st) data) as [r|]; [|discriminate].
+          destruct (negb (is_complete r)); [discriminate|].
+          destruct (http_handler_protocol r); try (inversion Epfr; subst; eexists; reflexivity).
+          unfold F.on_request_complete in Epfr.
+          destruct (F.before_upstream_connection _ _) as [a|]; [|discriminate].
+          destruct (connect_upstream _ _ _); [|discriminate].
+          destruct (negb ok); [discriminate|].
+          destruct (is_https_tunnel a); [discriminate|].
+          destruct (F.queue_request_for_upstream _ _ a) as [[? ?]|]; discriminate. }
+        destruct Hx as [X HX]. cbn [hrel fst snd]. split; [reflexivity|].
+        unfold cl_rel. rewrite client_queue_all_work.
+        eapply cl_rel_added; [exact Hcl|exact HX|apply new_cl_app; exact HX].
+      + (* not rejected *)
+        cbn [FF.catch].
+        destruct (is_complete (F.h_request st1)) eqn:Hc1.
+        * (* complete: HttpProxyPlugin connected *)
+          assert (Hshape : F.h_plugin st1 = true /\ F.h_pipeline st1 = F.h_pipeline st /\
+                   ((is_https_tunnel (F.h_request st1) = true /\
+                     F.h_upstream st1 = Some {| F.up_closed := false; F.up_queue := [] |} /\
+                     F.h_client st1 = F.h_client st ++ [F.TunnelEstablished]) \/
+                    (is_https_tunnel (F.h_request st1) = false /\
+                     (exists w, F.h_upstream st1 = Some {| F.up_closed := false; F.up_queue := [w] |}) /\
+                     F.h_client st1 = F.h_client st))).
+          { unfold F.parse_first_request in Epfr.
+            destruct (parse (F.h_request st) data) as [r|]; [|discriminate].
+            destruct (negb (is_complete r)) eqn:Hcr.
+            { inversion Epfr; subst. cbn [F.h_request F.set_request] in Hc1. rewrite Hc1 in Hcr. discriminate. }
+            destruct (http_handler_protocol r); try discriminate.
+            destruct (orc_shape _ _ Epfr) as (S1 & S2 & _ & _ & S5). split; [exact S1|]. split; [exact S2|exact S5]. }
+          destruct Hshape as (Hpl1 & Hpipe1 & Hcases).
+          cbn [with_oracles H.req].
+          set (s1 := H.set_request true H.PProxy (is_https_tunnel (F.h_request st1)) s).
+          (* the state pair right after on_request_complete *)
+          assert (Hs1 : exists s2,
+                    (if is_https_tunnel (F.h_request st1)
+                     then (H.client_queue (H.ack hc) (H.set_upstream (Some Cn.new_conn) s1), Some false)
+                     else (H.set_upstream (Some (Cn.queue (concat (upq st1)) Cn.new_conn)) s1, Some false)) = (s2, Some false)
+                    /\ hsim st1 s2 /\ H.req_complete s2 = true /\ H.plugin s2 = H.PProxy).
+          { destruct Hcases as [(Htn & Hup & Hcli)|(Htn & [w Hup] & Hcli)]; rewrite Htn.
+            - eexists. split; [reflexivity|]. split; [|split; reflexivity]. split.
+              + symmetry. exact Hc1.
+              + rewrite Hpl1. reflexivity.
+              + intros _. cbn [H.is_tunnel H.client_queue H.set_upstream]. subst s1. cbn [H.is_tunnel H.set_request]. reflexivity.
+              + subst s1. cbn [H.pipeline_upgrade H.client_queue H.set_upstream H.set_request]. unfold upg. rewrite Hpipe1. exact Hg.
+              + unfold up_rel. rewrite Hup. cbn [H.upstream H.client_queue H.set_upstream]. split; reflexivity.
+              + unfold cl_rel. cbn [H.work H.client_queue H.set_upstream]. subst s1. cbn [H.work H.set_request].
+                rewrite CF.queue_conservation. unfold cl_rel in Hcl. rewrite Hcl, Hcli, map_app, concat_app, Hack.
+                cbn [map concat]. rewrite app_nil_r. reflexivity.
+            - eexists. split; [reflexivity|]. split; [|split; reflexivity]. split.
+              + symmetry. exact Hc1.
+              + rewrite Hpl1. reflexivity.
+              + intros _. subst s1. reflexivity.
+              + subst s1. cbn [H.pipeline_upgrade H.set_upstream H.set_request]. unfold upg. rewrite Hpipe1. exact Hg.
+              + unfold up_rel. rewrite Hup. cbn [H.upstream H.set_upstream]. split; [reflexivity|].
+                unfold upq, F.upstream_queue. rewrite Hup. cbn [F.up_queue].
+                rewrite CF.queue_conservation. reflexivity.
+              + unfold cl_rel. subst s1. cbn [H.work H.set_upstream H.set_request]. rewrite Hcli. exact Hcl. }
+          destruct Hs1 as (s2 & -> & Hs2 & Hrc2 & Hp2).
+          cbn [H.req_rem]. cbn [F.first_remainder]. rewrite Hc1, Hpl1. cbn [andb].
+          unfold bufb. destruct (buffer (F.h_request st1)) as [[|b0 bt]|] eqn:Hbuf.
+          -- cbn [hrel fst snd]. split; [reflexivity|exact Hs2].
+          -- rewrite Hrc2, Hp2.
+             (* the remainder of the segment goes to plugin.on_client_data *)
+             assert (Hs2c : hsim (F.set_request st1 (F.clear_buffer (F.h_request st1))) s2).
+             { destruct Hs2 as [A1 A2 A3 A4 A5 A6]. split; try assumption. }
+             apply ocd_sim; try assumption; try reflexivity.
+          -- cbn [hrel fst snd]. split; [reflexivity|exact Hs2].
+        * (* still incomplete: nothing but the parser state changed *)
+          cbn [with_oracles H.req H.req_rem F.first_remainder].
+          assert (Efr : (match buffer (F.h_request st1) with
+                         | Some (b0 :: bt) => if is_complete (F.h_request st1) && F.h_plugin st1
+                             then F.on_client_data fc (F.set_request st1 (F.clear_buffer (F.h_request st1))) (b0 :: bt)
+                             else F.Done false st1
+                         | _ => F.Done false st1 end) = F.Done false st1).
+          { rewrite Hc1. destruct (buffer (F.h_request st1)) as [[|? ?]|]; reflexivity. }
+          rewrite Efr. cbn [hrel fst snd]. split; [reflexivity|].
+          assert (Hst1 : exists r, st1 = F.set_request st r).
+          { unfold F.parse_first_request in Epfr.
+            destruct (parse (F.h_request st) data) as [r|]; [|discriminate].
+            destruct (negb (is_complete r)) eqn:Hr; [inversion Epfr; eauto|].
+            destruct (http_handler_protocol r); try discriminate.
+            destruct (orc_shape _ _ Epfr) as (_ & _ & S3 & _).
+            exfalso. apply negb_false_iff in Hr. unfold is_complete in Hc1, Hr. rewrite S3 in Hc1.
+            cbn [F.h_request F.set_plugin F.set_request] in Hc1. rewrite Hr in Hc1. discriminate. }
+          destruct Hst1 as [r ->]. cbn [fst]. split.
+          -- rewrite Hc. symmetry. exact Hc1.
+          -- exact Hp.
+          -- intros Hx. rewrite Hx in Hc1. discriminate.
+          -- exact Hg.
+          -- exact Hu.
+          -- exact Hcl.
+      + (* an exception left _parse_first_request *)
+        cbn [F.first_remainder].
+        destruct e; cbn [FF.catch with_oracles H.req hrel fst snd];
+          try (split; [reflexivity|];
+               (* non-protocol exceptions leave the client queue alone *)
+               assert (Hsame : F.h_client st1 = F.h_client st);
+               [unfold F.parse_first_request in Epfr;
+                destruct (parse (F.h_request st) data) as [r|]; [|discriminate];
+                destruct (negb (is_complete r)); [discriminate|];
+                destruct (http_handler_protocol r); try discriminate;
+                unfold F.on_request_complete in Epfr;
+                destruct (F.before_upstream_connection _ _) as [a|]; [|inversion Epfr];
+                destruct (connect_upstream _ _ _); [|inversion Epfr; subst; reflexivity];
+                destruct (negb ok); [inversion Epfr|];
+                destruct (is_https_tunnel a); [discriminate|];
+                destruct (F.queue_request_for_upstream _ _ a) as [[? ?]|]; [discriminate|];
+                inversion Epfr; subst; reflexivity
+               |unfold cl_rel; rewrite Hsame; exact Hcl]).
+        (* HttpProtocolException: a response (if any) is queued and handle_data returns True *)
+        assert (Hx : exists X, F.h_client st1 = F.h_client st ++ X).
+        { unfold F.parse_first_request in Epfr.
+          destruct (parse (F.h_request st) data) as [r|].
+          2:{ inversion Epfr; subst. eexists. reflexivity. }
+          destruct (negb (is_complete r)); [discriminate|].
+          destruct (http_handler_protocol r); try discriminate.
+          unfold F.on_request_complete in Epfr.
+          destruct (F.before_upstream_connection _ _) as [a|]; [|inversion Epfr; subst; exists []; rewrite app_nil_r; reflexivity].
+          destruct (connect_upstream _ _ _); [|inversion Epfr; subst; exists []; rewrite app_nil_r; reflexivity].
+          destruct (negb ok); [inversion Epfr; subst; exists []; rewrite app_nil_r; reflexivity|].
+          destruct (is_https_tunnel a); [discriminate|].
+          destruct (F.queue_request_for_upstream _ _ a) as [[? ?]|]; [discriminate|].
+          inversion Epfr; subst. exists []. rewrite app_nil_r. reflexivity. }
+        destruct Hx as [X HX].
+        set (st1' := match F.exc_response k with Some c0 => F.queue_client st1 c0 | None => st1 end).
+        assert (HX' : exists X', F.h_client st1' = F.h_client st ++ X').
+        { subst st1'. destruct (F.exc_response k) as [c0|]; [|eauto].
+          cbn [F.h_client F.queue_client]. rewrite HX, <- app_assoc. eauto. }
+        destruct HX' as [X' HX'].
+        split; [reflexivity|]. unfold cl_rel. rewrite client_queue_all_work.
+        eapply cl_rel_added; [exact Hcl|exact HX'|apply new_cl_app; exact HX'].
   Qed.
 End Abs.
